@@ -111,7 +111,7 @@ Definition replay_step (c : config) (st : option tss) (snl : seen * legit) (o : 
           let ord' := ord && match pre with Some p => oi_qval p <? rx | None => true end in
           let sn' := seen_set cid (it, ord') sn in
           let lg' := legit_add cid (rx, ref) lg in
-          let o6 := C06_handle_ok (ents_of pre) q rxt now org rx tx rxt' txt'
+          let o6 := C06_handle_full_ok (ents_of pre) q rxt now org rx tx rxt' txt' (option_map oi_ents it)
                     && pairs_ordered (ents_of it) && all_legit cid lg' (ents_of it) in
           let o7 := item_checks cid it queue ord' && C07_queue_ok (cap real_config) (seen_count sn') queue in
           match st with
